@@ -18,6 +18,7 @@ from ..terms import get_tracer, fmt, strip, short, call_of, alts, walk, FROM_RES
 from ..inter import Inter
 from ..pathflow import World, PathFlow
 from ..results import PRESERVING
+from ..panics import norm
 
 EXPLANATION = ("typestate (labelled/unlabelled error) analysis over rustc MIR of every path-layer function, sync and "
                "async: each returned Err is traced back to its sources; sources that are backend/std results or fresh "
@@ -316,6 +317,36 @@ def run_error_rs(facts, rep):
                 pass
         ok = written <= allowed_fields and bool(written)
         rep.ob("R12.3b", b.id, "writes only its own field", ok, "fields written: %s" % sorted(written), b.span)
+        if name == "with_path":
+            # the stamp is unconditional and is the argument: every return passes the field write (no "keep the old
+            # path for some values" — the old path is the placeholder or a path of an underlying layer), and the
+            # written value is the argument up to conversions
+            trw = get_tracer(facts, b)
+            wbbs = [blk.idx for blk in b.blocks if not blk.cleanup and any(
+                s.kind == "assign" and not s.lhs.is_local() and s.lhs.local == 1 and s.lhs.fields()[:1] == ["path"] for s in blk.stmts)]
+            rets = trw.cfg.return_blocks()
+            uncond = bool(wbbs) and bool(rets) and all(any(w_ in trw.cfg.dominating_blocks(r_) for w_ in wbbs) for r_ in rets)
+            rep.ob("R12.3b", b.id, "path stamp is unconditional", uncond, "the field write dominates every return" if uncond else
+                   "with_path can return without storing its argument: for those arguments (e.g. the root path \"\") the error keeps "
+                   "the placeholder or the path an underlying layer stamped on it", b.span)
+            vals = []
+            for blk in b.blocks:
+                for s_ in blk.stmts:
+                    if s_.kind == "assign" and not s_.lhs.is_local() and s_.lhs.local == 1 and s_.lhs.fields()[:1] == ["path"]:
+                        vals.append(norm(trw.rvalue(s_.rv, frozenset())))
+
+            def is_argconv(t):
+                for _ in range(6):
+                    if t[0] == "arg" and t[1] == 1:
+                        return True
+                    if t[0] == "call" and t[1] in ("Into::into", "From::from", "ToString::to_string", "ToOwned::to_owned", "Clone::clone",
+                                                   "AsRef::as_ref", "String::from", "str::to_string", "str::to_owned") and t[2]:
+                        t = norm(t[2][0])
+                        continue
+                    return False
+                return False
+            okv = bool(vals) and all(is_argconv(v) for v in vals)
+            rep.ob("R12.3b", b.id, "stored path is the argument itself", okv, "; ".join(fmt(v)[:40] for v in vals), b.span)
         # returns self
         tr = get_tracer(facts, b)
         r = tr.local(0)
